@@ -676,6 +676,8 @@ pub fn op_name(op: &R1Op) -> &'static str {
         R1Op::Select(..) => "conditionally_select",
         R1Op::ScalarMul(..) => "scalar_mul_le",
         R1Op::ScalarMulBits(..) => "scalar_mul_le_long",
+        R1Op::SelectTable { .. } => "select_table",
+        R1Op::AllocFailing { .. } => "alloc_with_failing_value",
         R1Op::IsEq(..) => "is_eq",
         R1Op::IsZero(_) => "is_zero",
         R1Op::EnforceEq(..) => "enforce_equal",
